@@ -7,6 +7,7 @@ import (
 	"bufio"
 	"encoding/hex"
 	"encoding/json"
+	"flag"
 	"fmt"
 	"os"
 	"sort"
@@ -202,4 +203,25 @@ func (t *Trace) Close(summaryPath string) error {
 	}
 	b, _ := json.MarshalIndent(s, "", " ")
 	return os.WriteFile(summaryPath, b, 0644)
+}
+
+// Main is the entry point shared by all drivers (one binary per driver, so
+// that a driver that no longer builds affects only its own properties):
+//
+//	<driver> -seed S -n N -out trace.txt
+func Main(run func(t *Trace, r *Rand, n int)) {
+	seed := flag.Uint64("seed", 1, "PRNG seed")
+	n := flag.Int("n", 100, "number of histories")
+	out := flag.String("out", "trace.txt", "trace file")
+	flag.Parse()
+	t, err := NewTrace(*out)
+	if err != nil {
+		fmt.Fprintln(os.Stderr, err)
+		os.Exit(2)
+	}
+	run(t, NewRand(*seed), *n)
+	if err := t.Close(*out + ".summary.json"); err != nil {
+		fmt.Fprintln(os.Stderr, err)
+		os.Exit(2)
+	}
 }
